@@ -49,7 +49,12 @@ def step_strategy(draw, nd):
         return ["rot", a, b, draw(st.integers(-5, 5)), ref, argtype, inplace]
     bad = draw(st.sampled_from(["scale-zero", "scale-zero-axis", "scale-length", "scale-str", "scale-none", "scale-nested",
                                 "translate-length", "translate-str", "translate-none", "rot-same-axis", "rot-unknown-axis",
-                                "rot-float-k", "scale-ref-length", "rot-ref-length"]))
+                                "rot-float-k", "scale-ref-length", "rot-ref-length",
+                                "scale-collapse", "scale-collapse", "scale-collapse-axis", "scale-collapse-axis"]))
+    if bad.startswith("scale-collapse"):
+        # a non-zero factor whose image collapses in floating point: tiny factor about a far reference point
+        return ["bad", bad, draw(st.integers(0, nd - 1)), inplace, draw(st.sampled_from([17, 18, 20, 30, 200, 320])),
+                draw(st.sampled_from([1e4, 1e6, 1e9])), draw(st.sampled_from(["far", "far", "centre", "none"]))]
     return ["bad", bad, draw(st.integers(0, nd - 1)), inplace]
 
 
@@ -219,6 +224,16 @@ def bad_call(obj_kind, x, step, inplace):
         fac = [2.0] * nd
         fac[ax] = 0
         return tgt.scale(tuple(fac), inplace=ip)
+    if bad.startswith("scale-collapse"):
+        tiny = 10.0 ** -step[4]
+        fac = tiny if bad == "scale-collapse" else tuple(tiny if d == ax else 2.0 for d in range(nd))
+        if step[6] == "far":
+            ref = tuple(float(a) + step[5] * float(e) for a, e in zip(r.pmin, r.edges))
+        elif step[6] == "centre":
+            ref = tuple(float(c) for c in r.center)
+        else:
+            ref = None
+        return tgt.scale(fac, reference_point=ref, inplace=ip)
     if bad == "scale-length":
         return tgt.scale((2.0,) * (nd + 1), inplace=ip)
     if bad == "scale-str":
@@ -333,6 +348,38 @@ def check_history(case):
             continue
         for o in objs:
             c0 = cell0[o.kind]
+            if kind == "bad" and step[1].startswith("scale-collapse"):
+                # the image is degenerate only through rounding: both forms must agree (reject and keep the
+                # object, or accept with pmin < pmax); an accepted step ends the modelled history
+                outcome = []
+                for x, ip in ((o.a, step[3]), (o.b, not step[3])):
+                    before = o.snap(x)
+                    try:
+                        res = bad_call(o.kind, x, step, ip)
+                    except Exception:  # noqa: BLE001
+                        if o.snap(x) != before:
+                            raise Violation("rejected-but-modified", f"{o.kind} step {si} {step[1]} inplace={ip}") from None
+                        outcome.append("rejected")
+                        continue
+                    eff_ip = True if o.kind == "field" else ip
+                    y = x if eff_ip else res
+                    ry = o.region_of(y)
+                    if not bool(np.all(np.asarray(ry.pmin) < np.asarray(ry.pmax))):
+                        raise Violation("degenerate-accepted:" + step[1],
+                                        f"{o.kind} step {si} inplace={eff_ip} factor 1e-{step[4]} ref {step[6]}: accepted, region "
+                                        f"now {ry.pmin}..{ry.pmax}")
+                    if o.kind != "region":
+                        my = o.mesh_of(y)
+                        if not bool(np.all(np.asarray(my.cell, dtype=float) > 0)):
+                            raise Violation("degenerate-accepted:" + step[1] + ":cell", f"{o.kind}: cell {my.cell}")
+                    outcome.append("accepted")
+                tag("collapse:" + "/".join(outcome))
+                if o.kind != "field" and len(set(outcome)) != 1:
+                    raise Violation("forms-disagree-on-degenerate:" + step[1],
+                                    f"{o.kind} step {si}: in-place={step[3]} first -> {outcome}")
+                if "accepted" in outcome:
+                    return
+                continue
             if kind == "bad":
                 for x, ip in ((o.a, step[3]), (o.b, not step[3])):
                     before = o.snap(x)
@@ -446,3 +493,11 @@ SUBS = [
     Sub("history", check_history, history_case(8), nontrivial=nontrivial, quick=300, thorough=2500),
     Sub("history-long", check_history, history_case(12), nontrivial=nontrivial, quick=80, thorough=1500),
 ]
+
+
+# objects with a history (reads that may fill caches, in-place writes): observables equal those of a fresh object
+from pbt import aged as _aged  # noqa: E402
+
+SUBS.append(_aged.sub("C13", quick=120))
+ASSUMPTIONS = list(ASSUMPTIONS) + ["aged sub-property: library results are a function of the public primary state "
+                                   "(corners, n, names, units, bc, subregions, array, validity, labels, mapping, unit)"]
